@@ -382,8 +382,9 @@ pub fn forge<L: LayoutTrait + GenericLayoutTrait>(h: &Honest, plan: &Plan, rng: 
                 kc[colof[i]] += beta[i] * d;
                 r += beta[i] * oods[i] * d;
             }
-            let pivot = (0..ncol).find(|c| kc[*c] != Felt::ZERO).ok_or("no pivot column")?;
-            let mut v: Vec<Felt> = (0..ncol).map(|_| rng.felt()).collect();
+            // only the trace answers are free; the composition answers stay the committed ones
+            let pivot = (0..n1 + n2).find(|c| kc[*c] != Felt::ZERO).ok_or("no pivot column")?;
+            let mut v: Vec<Felt> = (0..ncol).map(|c| if c < n1 + n2 { rng.felt() } else { all[c] }).collect();
             let mut acc = r;
             for c in 0..ncol {
                 if c != pivot {
@@ -397,7 +398,7 @@ pub fn forge<L: LayoutTrait + GenericLayoutTrait>(h: &Honest, plan: &Plan, rng: 
         }
         sp.witness.traces_decommitment.original = TD { values: v1 };
         sp.witness.traces_decommitment.interaction = TD { values: v2 };
-        sp.witness.composition_decommitment = TD { values: v3 };
+        let _ = v3;
         note += "; row answers solved so that the DEEP function vanishes at every query";
     }
     if plan.adaptive_siblings {
